@@ -65,9 +65,9 @@ def check_dynamic_edges(R, cg, dyn):
     E = cg["edges_list"]
 
     def static_calls(f):
-        if f in ("_persist.load", "_persist.loads"):
-            return set(E.get(f + "@pre", [])) | set(E.get(f + "@post", [])) | set(E.get(f, []))
-        return set(E.get(f, []))
+        # functions split at the audit / at the serialisation appear as f@pre and f@post (callers point at those halves as well)
+        out = set(E.get(f + "@pre", [])) | set(E.get(f + "@post", [])) | set(E.get(f, []))
+        return out | {x.rsplit("@", 1)[0] for x in out if x.endswith(("@pre", "@post"))}
     missing = []
     for a, b in sorted(dyn):
         sc = static_calls(a)
